@@ -20,7 +20,9 @@ Definition WILD : seg := 0%N.              (* the segment text "<*>" *)
 Inductive pseg := PLit (s : seg) | PWild.
 Definition pattern := list pseg.
 
-Inductive kind := KInt | KU32 | KStr | KBool | KInternal.
+Inductive kind := KInt | KU32 | KStr | KBool | KInternal
+                | KAny.   (* a leaf of a plugin namespace: in a candidate (a JSON round trip of running) the
+                             plugin config is an untyped map, so any value is stored as it is *)
 (* the Go value handed to Set: int, uint32, string, bool *)
 Inductive value := VInt (z : Z) | VU32 (z : Z) | VStr (s : list N) | VBool (b : bool).
 (* a stored scalar; the zero value of every kind is represented by absence *)
@@ -165,6 +167,8 @@ Definition norm_bool (b : bool) : option sval := if b then Some (SBool true) els
 (* the value is assignable to the field as it is *)
 Definition native_of (k : kind) (v : value) : option (option sval) :=
   match k, v with
+  | KAny, VStr s => Some (norm_str s)       (* map values: strings and bools compare equal, numbers are *)
+  | KAny, VBool b => Some (norm_bool b)     (* float64 after the round trip and never equal an int      *)
   | KInt, VInt z => Some (norm_int z)
   | KU32, VU32 z => Some (norm_int z)
   | KStr, VStr s => Some (norm_str s)
@@ -177,6 +181,8 @@ Definition convert (k : kind) (v : value) : option (option sval) :=
   | Some o => Some o
   | None =>
     match k, v with
+    | KAny, VInt z => Some (norm_int z)
+    | KAny, VU32 z => Some (norm_int z)
     | KStr, VInt z => Some (norm_str (dec_of_Z z))
     | KStr, VU32 z => Some (norm_str (dec_of_Z z))
     | KStr, VBool b => Some (norm_str (if b then [116;114;117;101] else [102;97;108;115;101])%N)
@@ -279,12 +285,22 @@ Definition exists_in (s : store) (h : hspec) (p : path) : bool :=
   | _ => forallb (fun n => has_cont s (firstn n p)) (h_conts h)
   end.
 Definition old_value (s : store) (h : hspec) (p : path) : option (option sval) :=
-  if exists_in s h p then Some (get_leaf s p) else None.
+  if exists_in s h p then
+    match h_kind h with
+    | KAny => match get_leaf s p with Some v => Some (Some v) | None => None end   (* missing map key: nil *)
+    | _ => Some (get_leaf s p)
+    end
+  else None.
 
 (* ---------- Set ---------- *)
 Definition set_store (var : variant) (s : store) (h : hspec) (p : path) (v : value) : store * bool :=
   match h_kind h with
   | KInternal => (s, true)                     (* parts[0] == "_internal": nothing stored *)
+  | KAny =>                                    (* only when the namespace is present in cfg.Plugins; otherwise
+                                                  the path is looked up in the core struct: "field not found" *)
+    if forallb (fun n => has_cont s (firstn n p)) (h_conts h)
+    then match convert KAny v with Some o => (set_leaf s p o, true) | None => (s, false) end
+    else (s, false)
   | k => let s1 := add_conts s p (h_conts h) in
          match convert k v with
          | Some o => (set_leaf s1 p o, true)
